@@ -1,0 +1,36 @@
+//go:build verif
+// +build verif
+
+package ws
+
+import "bufio"
+
+// Exported views of package internals for the external verification harness.
+// Compiled only with -tags verif; nothing here changes library behaviour.
+
+var (
+	VerifLen7   = len7
+	VerifLen16  = len16
+	VerifLen64  = len64
+	VerifRemain = remain
+
+	VerifNonceKeySize = nonceKeySize
+	VerifNonceSize    = nonceSize
+	VerifAcceptSize   = acceptSize
+)
+
+func VerifReadLine(br *bufio.Reader) ([]byte, error)          { return readLine(br) }
+func VerifAsciiToInt(b []byte) (int, error)                   { return asciiToInt(b) }
+func VerifPow(a, b int) int                                   { return pow(a, b) }
+func VerifBsplit3(b []byte, sep byte) (x, y, z []byte)        { return bsplit3(b, sep) }
+func VerifBtrim(b []byte) []byte                              { return btrim(b) }
+func VerifCanonicalizeHeaderKey(k []byte)                     { canonicalizeHeaderKey(k) }
+func VerifBtsHasToken(header, token []byte) bool              { return btsHasToken(header, token) }
+func VerifStrHasToken(header, token string) bool              { return strHasToken(header, token) }
+func VerifInitAcceptFromNonce(accept, nonce []byte)           { initAcceptFromNonce(accept, nonce) }
+func VerifCheckAcceptFromNonce(accept, nonce []byte) bool     { return checkAcceptFromNonce(accept, nonce) }
+func VerifInitNonce(dst []byte)                               { initNonce(dst) }
+func VerifHostport(host, defaultPort string) (string, string) { return hostport(host, defaultPort) }
+func VerifHTTPParseVersion(b []byte) (major, minor int, ok bool) {
+	return httpParseVersion(b)
+}
